@@ -79,7 +79,10 @@ func Gen(seed uint64, tier string) any {
 	}
 	sc.Key = r.IntN(12)
 	if core.Chance(r, 4) {
-		sc.Key = 12 + r.IntN(len(gen.KeyText)-12) // the 4096-bit RSA keys: slow, used sparingly
+		sc.Key = 12 + r.IntN(2) // the 4096-bit RSA keys: slow, used sparingly
+	}
+	if core.Chance(r, 5) {
+		sc.Key = 14 // the key whose key tag is 0
 	}
 	if core.Chance(r, 8) {
 		sc.Parallel = 2 + r.IntN(3)
